@@ -121,8 +121,12 @@ func (s *vSource) Seek(off int64, whence int) (int64, error) {
 	case io.SeekEnd:
 		np = s.limit + off
 	}
-	if np < 0 {
+	if vFork(np < 0) {
 		return 0, errors.New("verif: negative seek")
+	}
+	if !vFork(np >= s.limit) {
+		// a position inside the data is made concrete (one path per value): reads there must stay concrete
+		np = int64(vConcretize(int(np), 256))
 	}
 	s.pos = np
 	return np, nil
